@@ -30,6 +30,12 @@ func TestVerifC03Dev(t *testing.T) {
 		t.Fatal(err)
 	}
 	pkgs := c03Pack(snips, 200, "p")
+	api := c03APISnippets(os.Getenv("C03_DEV_QUICK") == "")
+	for _, s := range api {
+		fam[s.Fam]++
+	}
+	t.Logf("api snippets: %d %v", len(api), fam)
+	pkgs = append(pkgs, c03Pack(api, 200, "q")...)
 	kinds := map[string]bool{}
 	bad := 0
 	for _, p := range pkgs {
